@@ -1,12 +1,27 @@
 (* Property C15: vnadata_t behaves like a typed frequency x rows x columns array with z0 modes.
-   Theorems only.  All statements are about LV.Data.DataModel (the checked-memory model of
-   vnadata_alloc.c, the vnadata.h accessors and the z0 files, tied to the implementation by the
-   op-script correspondence of checks/C15.py) with quirks = fixed, i.e. the behaviour of the code
-   after the repairs D4, D5, D6, D7, D40, D49; the `..._as_found` theorems are about the same
-   definitions with the behaviour of the code before those repairs.
+   Theorems only.  All statements are about LV.Data.DataModel - the checked-memory model of
+   vnadata_alloc.c, vnadata_add_frequency.c, the inline accessors of vnadata.h and the z0 / fz0
+   files, tied to the implementation by the op-script correspondence of checks/C15.py - with
+   quirks = fixed, i.e. the behaviour of the code in /repo now, after the repairs D4 (port index
+   n = ports refused), D6 (convert_to_fz0 copies the logical frequencies only) and D40
+   (rows * columns range checked), the three repairs the model's functions can express; the
+   `..._as_found` theorems are about the same definitions with the behaviour before those repairs.
+   (The repairs D5, D7, D49 that were made to the same files are not the subject of any theorem
+   here: D5 belongs to vnadata_convert - property C05 -, D7 / D49 concern row pointers and
+   zero-length memcpy, which the model does not represent; see docs/design_C15.md.)
+
+   `stepc` = DataModel.step_chk: the caller's vectors of the vector-taking setters are checked
+   memories too, so reading past the end of a short caller vector is RFault.  `stepf` =
+   DataModel.step, the same function for callers that supply the documented number of elements
+   (short vectors are completed with a default); it is what the correspondence executes and what
+   the two-object machine of property C05 is built from.
+   The inline accessors of vnadata.h compile their index tests out under
+   -DVNADATA_NO_BOUNDS_CHECK; the model, the theorems and the correspondence are about the
+   default build (the macro is not defined anywhere in the check's build).
    V is the abstract value type with the two constants the code uses (0 and 50 ohm). *)
 Require Import List ZArith.
-Require Import LV.Data.DataModel LV.Data.ArraySpec LV.Data.DataProofs LV.Data.RefineProofs.
+Require Import LV.Data.DataModel LV.Data.ArraySpec LV.Data.DataProofs LV.Data.RefineProofs
+               LV.Data.ConvertModel LV.Data.InterleaveProofs.
 Import ListNotations.
 
 Section C15.
@@ -14,6 +29,7 @@ Variable V : Type.
 Variables vzero vdef : V.
 Notation vd := (vd V).
 Notation stepf := (step V vzero vdef fixed).
+Notation stepc := (step_chk V vzero vdef fixed).
 Notation Inv := (Inv V vzero vdef).
 
 (* The invariant (allocations cover the logical sizes; every frequency, cell and impedance outside
@@ -23,20 +39,28 @@ Notation Inv := (Inv V vzero vdef).
 Theorem c15_inv_init : Inv (vd_alloc V vzero vdef).
 Proof. exact (inv_alloc V vzero vdef). Qed.
 
-Theorem c15_inv_step : forall d o, Inv d -> Inv (fst (stepf d o)).
-Proof. exact (step_inv V vzero vdef). Qed.
+Theorem c15_inv_step : forall d o, Inv d -> Inv (fst (stepf d o)) /\ Inv (fst (stepc d o)).
+Proof. exact (fun d o H => conj (step_inv V vzero vdef d o H) (step_chk_inv V vzero vdef d o H)). Qed.
 
 Theorem c15_inv_reachable : forall d, reachable V vzero vdef fixed d -> Inv d.
 Proof. exact (inv_reachable V vzero vdef). Qed.
 
-(* No operation accesses memory outside the allocations (the model checks every access). *)
-Theorem c15_no_fault : forall d o, Inv d -> o_ret V (snd (stepf d o)) <> RFault.
-Proof. exact (step_no_fault V vzero vdef). Qed.
+(* No operation accesses memory outside the allocations of the object (the model checks every
+   access), for callers that supply vectors of the documented length: on a state satisfying the
+   invariant an operation faults exactly when it reads past the end of a vector of the caller
+   (the C code cannot check that length; such a call is a caller error outside the property). *)
+Theorem c15_no_fault : forall d o, Inv d -> short_vector V d o = false -> o_ret V (snd (stepc d o)) <> RFault.
+Proof. exact (step_chk_no_fault V vzero vdef). Qed.
+
+Theorem c15_fault_iff_short_caller_vector : forall d o,
+  Inv d -> (o_ret V (snd (stepc d o)) = RFault <-> short_vector V d o = true).
+Proof. exact (step_chk_fault_iff V vzero vdef). Qed.
 
 (* Any index outside [0,n), including n, is refused with the failure value (one error report,
-   EINVAL) and no effect on the object; all 16 indexed accessors, every index position. *)
-Theorem c15_index_n_refused : forall d o, bad_index V d o -> stepf d o = (d, fail V).
-Proof. exact (index_refused V vzero vdef). Qed.
+   EINVAL) and no effect on the object: all 16 indexed accessors (14 with index arguments, every
+   index position; get_fmin / get_fmax on an object without frequencies), in any state. *)
+Theorem c15_index_n_refused : forall d o, bad_index V d o -> stepc d o = (d, fail V).
+Proof. exact (index_refused_chk V vzero vdef). Qed.
 
 (* A successful resize presents every newly exposed frequency, cell and impedance with its
    initial value and preserves the cells of the common flattened prefix. *)
@@ -51,41 +75,99 @@ Theorem c15_resize_exposes_initial : forall Q d t r c f,
   (forall i j, i < freqs V d -> i < freqs V d' -> j < cells V d -> j < cells V d' -> dat V d' i j = dat V d i j).
 Proof. exact (resize_exposes_initial V vzero vdef). Qed.
 
-(* Refinement to the abstract array of ArraySpec (the documented behaviour, no allocations):
-   forward simulation for EVERY operation - from related states the model and the specification
-   produce the same outcome (return class, callbacks, payload) and related states ... *)
-Theorem c15_data_refines_array_step : forall d a o,
-  Inv d -> refines V d a -> sim V vzero vdef d a o.
-Proof. exact (sim_step V vzero vdef). Qed.
-
-(* ... hence for every operation history from vnadata_alloc every getter returns, and every call
-   reports, exactly what the abstract array predicts. *)
-Theorem c15_data_refines_array : forall l,
-  trace V vzero vdef (vd_alloc V vzero vdef) l = spec_trace V vzero vdef (arr_alloc V vzero vdef) l.
-Proof. exact (data_refines_array V vzero vdef). Qed.
-
-(* Two objects with equal logical contents cannot be told apart by any later history, whatever
-   their allocation histories (shrink/regrow, conversions, ...). *)
-Theorem c15_indistinguishable : forall d1 d2 l,
-  Inv d1 -> Inv d2 -> arr_eq V (abs V d1) (abs V d2) -> trace V vzero vdef d1 l = trace V vzero vdef d2 l.
-Proof. exact (indistinguishable V vzero vdef). Qed.
-
 Theorem c15_resize_rejected_unchanged : forall Q d t r c f,
   o_ret V (snd (resize V vzero vdef Q d t r c f)) <> ROk -> fst (resize V vzero vdef Q d t r c f) = d.
 Proof. exact (resize_rejected_unchanged V vzero vdef). Qed.
 
+(* Type / dimension rules.  ArraySpec.dims_fit is the rule as the manual and the kinds of network
+   parameters give it (s, z, y: n x n; t, u, h, g, a, b: 2 x 2; zin: 1 x n; undefined: any),
+   written without reference to the model.  The model's function - read from validate_type of
+   vnadata_alloc.c - decides exactly that rule; resize (hence init) and set_type accept exactly the
+   requests that satisfy it; every reachable object satisfies it. *)
+Theorem c15_model_type_rule_is_manual_rule : forall t r c, validate_type t r c = true <-> dims_fit t r c.
+Proof. exact validate_type_manual. Qed.
+
+Theorem c15_resize_accepts_iff : forall d tz r c f, Inv d ->
+  (o_ret V (snd (stepf d (OResize V tz r c f))) = ROk <->
+   exists t, vpt_of_Z tz = Some t /\ (0 <= r)%Z /\ (0 <= c)%Z /\ (0 <= f)%Z /\
+             dims_fit t (Z.to_nat r) (Z.to_nat c) /\ (r * c <= INT_MAX)%Z).
+Proof. exact (resize_accepts_iff V vzero vdef). Qed.
+
+Theorem c15_set_type_accepts_iff : forall d tz,
+  (o_ret V (snd (stepf d (OSetType V tz))) = ROk <->
+   exists t, vpt_of_Z tz = Some t /\ dims_fit t (rows V d) (cols V d)) /\
+  (forall t, vpt_of_Z tz = Some t -> dims_fit t (rows V d) (cols V d) ->
+     ty V (fst (stepf d (OSetType V tz))) = t).
+Proof. exact (set_type_accepts_iff V vzero vdef). Qed.
+
+Theorem c15_reachable_dims_fit : forall d,
+  reachable V vzero vdef fixed d -> dims_fit (ty V d) (rows V d) (cols V d).
+Proof. exact (reachable_dims_fit V vzero vdef). Qed.
+
+(* Refinement to the abstract array of ArraySpec (the documented behaviour, no allocations; its
+   type rule is ArraySpec.type_rule, the decision procedure of dims_fit): forward simulation for
+   EVERY one of the 32 operations - from related states, when the vector of a vector-taking setter
+   has at least the documented length (ArraySpec.vec_ok, stated on the abstract array), the model
+   and the specification produce the same outcome (return class, callbacks, payload) and related
+   states ... *)
+Theorem c15_data_refines_array_step : forall d a o,
+  Inv d -> refines V d a -> vec_ok V a o -> sim_chk V vzero vdef d a o.
+Proof. exact (sim_chk_step V vzero vdef). Qed.
+
+(* ... hence for every operation history from vnadata_alloc whose vectors have the documented
+   lengths at the moment they are passed (vecs_ok, again on the abstract side) every getter
+   returns, and every call reports, exactly what the abstract array predicts. *)
+Theorem c15_data_refines_array : forall l,
+  vecs_ok V vzero vdef (arr_alloc V vzero vdef) l ->
+  trace_chk V vzero vdef (vd_alloc V vzero vdef) l = spec_trace V vzero vdef (arr_alloc V vzero vdef) l.
+Proof. exact (data_refines_array_chk V vzero vdef). Qed.
+
+(* The premise excludes exactly the over-reads: under the refinement relation a call that reads
+   past the caller's vector violates vec_ok. *)
+Theorem c15_short_vector_violates_vec_ok : forall d a o,
+  refines V d a -> short_vector V d o = true -> ~ vec_ok V a o.
+Proof. exact (short_vector_not_ok V). Qed.
+
+(* Two objects with equal logical contents cannot be told apart by any later history, whatever
+   their allocation histories (shrink/regrow, conversions, ...) and whatever vectors are passed. *)
+Theorem c15_indistinguishable : forall l d1 d2,
+  Inv d1 -> Inv d2 -> arr_eq V (abs V d1) (abs V d2) -> trace_chk V vzero vdef d1 l = trace_chk V vzero vdef d2 l.
+Proof. exact (indistinguishable_chk V vzero vdef). Qed.
+
+(* Conversions interleaved.  In every state of the two-object machine of ConvertModel (container
+   operations on either object, vnadata_convert in every direction - in place and out of place -,
+   free + alloc; its invariant is c05_machine_invariant of property C05) an operation, and every
+   further history of operations, on either object yields what the abstract array predicts from
+   the logical contents of that object, and faults only past a short caller vector.  (What the
+   conversion itself writes is property C05.) *)
+Theorem c15_interleaved_refines_step : forall dd2 conv (l : list (mop V)) i o,
+  let d := sel V (mrun V vzero vdef fixed dd2 conv (minit V vzero vdef) l) i in
+  vec_ok V (abs V d) o -> sim_chk V vzero vdef d (abs V d) o.
+Proof. exact (interleaved_sim V vzero vdef). Qed.
+
+Theorem c15_interleaved_refines : forall dd2 conv (l : list (mop V)) i ops,
+  let d := sel V (mrun V vzero vdef fixed dd2 conv (minit V vzero vdef) l) i in
+  vecs_ok V vzero vdef (abs V d) ops ->
+  trace_chk V vzero vdef d ops = spec_trace V vzero vdef (abs V d) ops.
+Proof. exact (interleaved_trace V vzero vdef). Qed.
+
+Theorem c15_interleaved_fault_iff : forall dd2 conv (l : list (mop V)) i o,
+  let d := sel V (mrun V vzero vdef fixed dd2 conv (minit V vzero vdef) l) i in
+  o_ret V (snd (stepc d o)) = RFault <-> short_vector V d o = true.
+Proof. exact (interleaved_fault_iff V vzero vdef). Qed.
+
 (* z0 mode rules of vnadata(3). *)
 Theorem c15_fz0_mode_rules_set_z0 : forall d p v,
   Inv d -> in_range p (ports V d) = true ->
-  let d' := fst (stepf d (OSetZ0 V p v)) in
-  snd (stepf d (OSetZ0 V p v)) = ok V /\ per_f V d' = false /\ z0v V d' (Z.to_nat p) = v /\
+  let d' := fst (stepc d (OSetZ0 V p v)) in
+  snd (stepc d (OSetZ0 V p v)) = ok V /\ per_f V d' = false /\ z0v V d' (Z.to_nat p) = v /\
   (forall j, j <> Z.to_nat p -> z0v V d' j = if per_f V d then vdef else z0v V d j).
 Proof. exact (set_z0_rule V vzero vdef). Qed.
 
 Theorem c15_fz0_mode_rules_set_fz0 : forall d f p v,
   Inv d -> in_range f (freqs V d) = true -> in_range p (ports V d) = true ->
-  let d' := fst (stepf d (OSetFz0 V f p v)) in
-  snd (stepf d (OSetFz0 V f p v)) = ok V /\ per_f V d' = true /\
+  let d' := fst (stepc d (OSetFz0 V f p v)) in
+  snd (stepc d (OSetFz0 V f p v)) = ok V /\ per_f V d' = true /\
   z0vv V d' (Z.to_nat f) (Z.to_nat p) = v /\
   (forall i j, i < freqs V d -> j < ports V d -> (i, j) <> (Z.to_nat f, Z.to_nat p) ->
      z0vv V d' i j = if per_f V d then z0vv V d i j else z0v V d j).
@@ -93,24 +175,73 @@ Proof. exact (set_fz0_rule V vzero vdef). Qed.
 
 Theorem c15_fz0_mode_rules_getters : forall d f p,
   Inv d -> in_range f (freqs V d) = true -> in_range p (ports V d) = true ->
-  stepf d (OGetZ0 V p) = (if per_f V d then (d, fail V) else (d, okp V (PVal V (z0v V d (Z.to_nat p))))) /\
-  stepf d (OGetFz0 V f p) =
+  stepc d (OGetZ0 V p) = (if per_f V d then (d, fail V) else (d, okp V (PVal V (z0v V d (Z.to_nat p))))) /\
+  stepc d (OGetFz0 V f p) =
     (d, okp V (PVal V (if per_f V d then z0vv V d (Z.to_nat f) (Z.to_nat p) else z0v V d (Z.to_nat p)))).
 Proof. exact (get_rules V vzero vdef). Qed.
 
-(* Non-vacuity: a non-trivial reachable state (per-frequency z0, 50 allocated frequency rows,
-   shrunk and regrown) satisfies the invariant, and an index-n call on a concrete state meets
-   the hypothesis of c15_index_n_refused. *)
+(* Non-vacuity.  A reachable state that is not trivial - 2 x 3 x 4 after growing, filling,
+   switching to per-frequency impedances, shrinking every dimension to 1 and regrowing every
+   dimension beyond its former size; 50 allocated frequency rows - satisfies the invariant and
+   shows preserved, re-exposed and freshly written cells ... *)
 Theorem c15_inv_satisfiable :
-  Inv (run V vzero vdef fixed (vd_alloc V vzero vdef)
-         [OInit V 1 1 1 0; OAddFreq V 1; OSetZ0 V 0 vzero; OSetFz0 V 0 0 vzero;
-          OResize V 0 2 3 4; OSetCell V 3 1 2 vdef]).
+  let d := run V vzero vdef fixed (vd_alloc V vzero vdef) (example_history V vzero vdef) in
+  Inv d /\
+  (rows V d, cols V d, freqs V d) = (2, 3, 4) /\ per_f V d = true /\
+  (p_alloc V d, f_alloc V d, m_alloc V d) = (3, 50, 6) /\
+  (let e := run V vzero vdef fixed (vd_alloc V vzero vdef) (firstn 6 (example_history V vzero vdef)) in
+   (rows V e, cols V e, freqs V e) = (1, 1, 1)) /\
+  dat V d 3 5 = vdef /\ dat V d 0 0 = vdef /\ dat V d 0 1 = vzero /\ z0vv V d 0 0 = vzero /\ z0vv V d 0 1 = vdef.
 Proof. exact (inv_example V vzero vdef). Qed.
 
+(* ... its history meets the premise of c15_data_refines_array (it passes a matrix of 4 and an
+   impedance vector of 2 to a 2 x 2 object), and a history with a one-element matrix does not; *)
+Theorem c15_vecs_ok_satisfiable :
+  vecs_ok V vzero vdef (arr_alloc V vzero vdef) (example_history V vzero vdef) /\
+  ~ vecs_ok V vzero vdef (arr_alloc V vzero vdef) [OInit V 1 2 2 1; OSetMatrix V 0 [vdef]].
+Proof. exact (vecs_ok_example V vzero vdef). Qed.
+
+(* the short caller vector: [OInit 1 2 2 1; OSetMatrix 0 [v]] reads 4 values from a buffer of one:
+   fault in the checked step (the unchecked step completes the vector with zeros), no fault with 4; *)
+Theorem c15_short_caller_vector_example :
+  let d := run V vzero vdef fixed (vd_alloc V vzero vdef) [OInit V 1 2 2 1] in
+  Inv d /\ short_vector V d (OSetMatrix V 0 [vdef]) = true /\
+  o_ret V (snd (stepc d (OSetMatrix V 0 [vdef]))) = RFault /\
+  o_ret V (snd (stepf d (OSetMatrix V 0 [vdef]))) = ROk /\
+  short_vector V d (OSetMatrix V 0 [vdef; vzero; vzero; vdef]) = false /\
+  o_ret V (snd (stepc d (OSetMatrix V 0 [vdef; vzero; vzero; vdef]))) = ROk.
+Proof. exact (short_vector_example V vzero vdef). Qed.
+
+(* index-n calls on concrete states meet the hypothesis of c15_index_n_refused (an explicit index,
+   and the two accessors without one); *)
 Theorem c15_index_n_refused_satisfiable :
   let d := run V vzero vdef fixed (vd_alloc V vzero vdef) [OInit V 1 3 3 1; OResize V 1 2 2 1] in
   bad_index V d (OGetZ0 V 2) /\ stepf d (OGetZ0 V 2) = (d, fail V).
 Proof. exact (index_n_refused_example V vzero vdef). Qed.
+
+Theorem c15_fmin_fmax_refused_satisfiable :
+  let d := run V vzero vdef fixed (vd_alloc V vzero vdef) [OInit V 1 2 2 0] in
+  bad_index V d (OGetFmin V) /\ stepc d (OGetFmin V) = (d, fail V) /\
+  bad_index V d (OGetFmax V) /\ stepc d (OGetFmax V) = (d, fail V).
+Proof. exact (fmin_refused_example V vzero vdef). Qed.
+
+(* the type rule accepts and refuses something in each clause; *)
+Theorem c15_dims_fit_examples :
+  dims_fit VS 3 3 /\ ~ dims_fit VS 2 3 /\ dims_fit VH 2 2 /\ ~ dims_fit VH 3 3 /\ ~ dims_fit VT 1 1 /\
+  dims_fit VZIN 1 4 /\ dims_fit VZIN 1 0 /\ ~ dims_fit VZIN 2 2 /\ dims_fit VUNDEF 2 3 /\ dims_fit VY 0 0.
+Proof. exact dims_fit_examples. Qed.
+
+(* and an interleaved history (fill S 2 x 2, convert out of place to Z, switch the copy to
+   per-frequency impedances, convert it in place to Zin, shrink the source) reaches states to
+   which the interleaving theorems apply non-trivially. *)
+Theorem c15_interleaved_satisfiable : forall dd2 conv,
+  let s := mrun V vzero vdef fixed dd2 conv (minit V vzero vdef) (example_mhistory V vzero vdef) in
+  (ty V (sel V s true), rows V (sel V s true), cols V (sel V s true), freqs V (sel V s true)) = (VZIN, 1, 2, 1) /\
+  per_f V (sel V s true) = true /\
+  (ty V (sel V s false), rows V (sel V s false), cols V (sel V s false)) = (VS, 1, 1) /\
+  bad_index V (sel V s true) (OGetCell V 0 1 0) /\
+  vec_ok V (abs V (sel V s true)) (OSetMatrix V 0 [vdef; vdef]).
+Proof. exact (interleaved_example V vzero vdef). Qed.
 
 (* The code as found (before the repairs): index n = ports was accepted by the z0 accessors
    (D4), the access could leave the allocation, and convert_to_fz0 broke the invariant (D6).
@@ -137,17 +268,31 @@ Print Assumptions c15_inv_init.
 Print Assumptions c15_inv_step.
 Print Assumptions c15_inv_reachable.
 Print Assumptions c15_no_fault.
+Print Assumptions c15_fault_iff_short_caller_vector.
 Print Assumptions c15_index_n_refused.
 Print Assumptions c15_resize_exposes_initial.
+Print Assumptions c15_resize_rejected_unchanged.
+Print Assumptions c15_model_type_rule_is_manual_rule.
+Print Assumptions c15_resize_accepts_iff.
+Print Assumptions c15_set_type_accepts_iff.
+Print Assumptions c15_reachable_dims_fit.
 Print Assumptions c15_data_refines_array_step.
 Print Assumptions c15_data_refines_array.
+Print Assumptions c15_short_vector_violates_vec_ok.
 Print Assumptions c15_indistinguishable.
-Print Assumptions c15_resize_rejected_unchanged.
+Print Assumptions c15_interleaved_refines_step.
+Print Assumptions c15_interleaved_refines.
+Print Assumptions c15_interleaved_fault_iff.
 Print Assumptions c15_fz0_mode_rules_set_z0.
 Print Assumptions c15_fz0_mode_rules_set_fz0.
 Print Assumptions c15_fz0_mode_rules_getters.
 Print Assumptions c15_inv_satisfiable.
+Print Assumptions c15_vecs_ok_satisfiable.
+Print Assumptions c15_short_caller_vector_example.
 Print Assumptions c15_index_n_refused_satisfiable.
+Print Assumptions c15_fmin_fmax_refused_satisfiable.
+Print Assumptions c15_dims_fit_examples.
+Print Assumptions c15_interleaved_satisfiable.
 Print Assumptions c15_index_n_refused_refuted_as_found.
 Print Assumptions c15_no_fault_refuted_as_found.
 Print Assumptions c15_inv_refuted_as_found.
